@@ -2,6 +2,45 @@
 use poulpy_verif_harness::rec::*;
 use poulpy_verif_harness::with_znx;
 use poulpy_cpu_ref::reference::znx::*;
+use poulpy_verif_harness::hal::*;
+use poulpy_verif_harness::with_be;
+use poulpy_hal::api::*;
+
+/// flat-memory vector ops through the public HAL API of Module<BE>
+/// ps = be n | rcols rsize rmax rcol | acols asize amax acol | extra...   vs = [res_flat, a_flat]
+fn vec_op(r: &Rec) -> Vec<Vec<i128>> {
+    let p = &r.ps;
+    let u = |i: usize| p[i] as usize;
+    let (be, n) = (p[0], u(1));
+    let (rcols, rsize, rmax, rcol) = (u(2), u(3), u(4), u(5));
+    let (acols, asize, amax, acol) = (u(6), u(7), u(8), u(9));
+    let e = |i: usize| p[10 + i];
+    let mut res = mk_vec_znx(n, rcols, rmax, rsize, &v64(&r.vs[0]));
+    let a = if r.vs.len() > 1 { mk_vec_znx(n, acols, amax, asize, &v64(&r.vs[1])) } else { mk_vec_znx(n, 1, 1, 1, &vec![0i64; n]) };
+    let code = r.code;
+    with_be!(be, BE, {
+        let m = module::<BE>(n);
+        let fill = if code == 8107 { e(2) as i64 } else { 0x5a5a5a5a5a5a5a5a_u64 as i64 };
+        let bytes = m.vec_znx_normalize_tmp_bytes().max(m.vec_znx_rsh_tmp_bytes()).max(m.vec_znx_lsh_tmp_bytes());
+        let mut sc = scratch_filled::<BE>(bytes, fill);
+        let s = sc.borrow();
+        match code {
+            8101 => m.vec_znx_normalize(&mut res, e(0) as usize, e(2) as i64, rcol, &a, e(1) as usize, acol, s),
+            8102 => m.vec_znx_normalize_assign(e(0) as usize, &mut res, rcol, s),
+            8103 => m.vec_znx_lsh_assign(e(0) as usize, e(1) as usize, &mut res, rcol, s),
+            8104 => m.vec_znx_lsh(e(0) as usize, e(1) as usize, &mut res, rcol, &a, acol, s),
+            8105 => m.vec_znx_lsh_add_into(e(0) as usize, e(1) as usize, &mut res, rcol, &a, acol, s),
+            8106 => m.vec_znx_lsh_sub(e(0) as usize, e(1) as usize, &mut res, rcol, &a, acol, s),
+            8107 => m.vec_znx_rsh_assign(e(0) as usize, e(1) as usize, &mut res, rcol, s),
+            8108 => m.vec_znx_rsh(e(0) as usize, e(1) as usize, &mut res, rcol, &a, acol, s),
+            8109 => m.vec_znx_rsh_add_into(e(0) as usize, e(1) as usize, &mut res, rcol, &a, acol, s),
+            8110 => m.vec_znx_rsh_sub(e(0) as usize, e(1) as usize, &mut res, rcol, &a, acol, s),
+            _ => panic!("c08: unknown vec op {}", code),
+        }
+    });
+    vec![to128(&dump_vec_znx(&res))]
+}
+
 
 fn kernel(r: &Rec) -> Vec<Vec<i128>> {
     let p = &r.ps;
@@ -50,6 +89,7 @@ fn kernel(r: &Rec) -> Vec<Vec<i128>> {
             with_znx!(be, T, { T::znx_mul_power_of_two_assign(k, &mut x) }); vec![to128(&x)] }
         8024 => { let (be, k) = (p[0], p[1] as i64); let mut x = v[0].clone();
             with_znx!(be, T, { T::znx_muladd_power_of_two(k, &mut x, &v[1]) }); vec![to128(&x)] }
+        8101..=8199 => vec_op(r),
         _ => panic!("c08: unknown op {}", r.code),
     }
 }
@@ -102,7 +142,53 @@ pub fn generate(tier: &str, seed: u64) -> Vec<Rec> {
             }
         }
     }
+    gen_vec(&mut rng, tier, &mut out);
     out
+}
+
+/// digits of a limb vector: mostly normalised, sometimes un-normalised within headroom, sometimes extreme
+fn limb_vals(rng: &mut Rng, cnt: usize, b: i64) -> Vec<i128> {
+    let class = rng.below(6);
+    (0..cnt).map(|_| {
+        let half = 1i64 << (b - 1);
+        (match class {
+            0 | 1 => rng.range(-half, half - 1),
+            2 => rng.pick(&[-half, half - 1, 0, -1, 1]),
+            3 => { let hb = (b + 1 + rng.below(8) as i64).min(58); rng.range(-(1i64 << hb), 1i64 << hb) }
+            4 => rng.pick(&[half, -half - 1, 2 * half, -2 * half, 3 * half + 1]),
+            _ => rng.range(-half, half - 1),
+        }) as i128
+    }).collect()
+}
+
+fn gen_vec(rng: &mut Rng, tier: &str, out: &mut Vec<Rec>) {
+    let reps = if tier == "thorough" { 12000 } else { 1500 };
+    for it in 0..reps {
+        let code = 8101 + rng.below(10) as i64;
+        let be = rng.range(1, 4) as i128;
+        let n = rng.pick(&[1usize, 2, 4, 8, 16]);
+        let small = it % 3 == 0;
+        let rb = if small { rng.range(1, 6) } else { rng.range(1, 50) };
+        let ab = if code == 8101 && rng.below(2) == 0 { if small { rng.range(1, 6) } else { rng.range(1, 50) } } else { rb };
+        let rcols = rng.range(1, 3) as usize; let acols = rng.range(1, 3) as usize;
+        let rsize = rng.range(1, 5) as usize; let asize = rng.range(1, 5) as usize;
+        let rmax = rsize + rng.below(2) as usize; let amax = asize + rng.below(2) as usize;
+        let rcol = rng.below(rcols as u64) as usize; let acol = rng.below(acols as u64) as usize;
+        let abits = (asize as i64) * ab;
+        let resf = limb_vals(rng, n * rcols * rmax, rb);
+        let af = limb_vals(rng, n * acols * amax, ab);
+        let hdr = |extra: Vec<i128>| { let mut p = vec![be, n as i128, rcols as i128, rsize as i128, rmax as i128, rcol as i128, acols as i128, asize as i128, amax as i128, acol as i128]; p.extend(extra); p };
+        let kmax = ((rsize.max(asize) as i64) + 2) * rb;
+        let k = rng.range(0, kmax) as i128;
+        let r = match code {
+            8101 => { let off = rng.range(-(abits + 2 * ab), abits + 2 * ab) as i128; Rec::new(code, hdr(vec![rb as i128, ab as i128, off]), vec![resf, af]) }
+            8102 => Rec::new(code, hdr(vec![rb as i128]), vec![resf]),
+            8103 => Rec::new(code, hdr(vec![rb as i128, k]), vec![resf]),
+            8107 => Rec::new(code, hdr(vec![rb as i128, k, rng.pick(&[0i64, 1, -1, 77, -12345]) as i128]), vec![resf]),
+            _ => Rec::new(code, hdr(vec![rb as i128, k]), vec![resf, af]),
+        };
+        out.push(r);
+    }
 }
 
 fn main() { poulpy_verif_harness::run_main(generate, exec) }
